@@ -88,6 +88,44 @@ class Ctx:
         })
         return ok
 
+    _DELEGATE_CACHE = {}
+
+    def delegate(self, other_prop, rules, as_rule, text, only=None, floor=1):
+        """Evaluate rules of another property (same facts, same engines) and record their instances under `as_rule` of this
+        property: properties overlap, and a clause of this one that is decided by a rule written for another one is claimed
+        here through that rule.  `only`: optional predicate on the other rule's obligation (dict) to select instances.
+        Rule instances that are known findings of the other property are not imported (they are reported there)."""
+        import importlib
+        if getattr(self, "is_sub", False):
+            return 0            # no delegation from inside a delegated evaluation (C14 <-> C15)
+        ck = (other_prop, self.tier, os.environ.get("SHP_REPO", ""))
+        sub = Ctx._DELEGATE_CACHE.get(ck)
+        if sub is None:
+            sub = Ctx(other_prop, self.tier)
+            sub.is_sub = True
+            sub._facts = self._facts
+            try:
+                importlib.import_module("sa.rules." + other_prop).run(sub)
+            except BrokenChecker:
+                raise
+            except Exception as e:
+                sub.unanalysable(other_prop + ".engine", "rule evaluation", "internal error while analysing this tree: %r" % (e,))
+                for r in rules:
+                    sub.unanalysable(r, "rule evaluation", "internal error while analysing this tree: %r" % (e,))
+            Ctx._DELEGATE_CACHE[ck] = sub
+        self.rule(as_rule, text + " [decided by %s of %s]" % (", ".join(rules), other_prop), floor=floor)
+        known, _ = load_known()
+        n = 0
+        for o in sub.obs:
+            if o["rule"] not in rules or (only and not only(o)):
+                continue
+            if (other_prop, o["key"]) in known:
+                continue
+            n += 1
+            self.ob(as_rule, "%s: %s" % (o["rule"], o["instance"]), o["ok"], o["why"], site=o["site"],
+                    key="%s|%s" % (as_rule, o["key"]), trivial=o.get("trivial", False))
+        return n
+
     def missing(self, rule, what):
         """A required anchor is missing: fail closed."""
         self.ob(rule, "anchor:" + what, False, "anchor not found in the crate (fail closed): " + what,
